@@ -548,4 +548,5 @@ func runC01(c *Ctx) {
 	ruleDotTable(c)
 	ruleDotStructure(c)
 	ruleDataSource(c)
+	ruleLineLimitCounting(c) // the limiter below the reader counts octet by octet, independent of read boundaries
 }
